@@ -774,11 +774,29 @@ func (r *Runner) resolveCaretBinaryExpression(v1, v2 interface{}) (interface{}, 
 }
 
 func (r *Runner) resolveEqualsEqualsBinaryExpression(expr *BinaryExpression, v1, v2 interface{}) (interface{}, error) {
+	if err := checkComparable(v1, v2); err != nil {
+		return nil, err
+	}
 	return r.valueLikeEqualTo(v1, v2), nil
 }
 
 func (r *Runner) resolveNotEqualsBinaryExpression(expr *BinaryExpression, v1, v2 interface{}) (interface{}, error) {
+	if err := checkComparable(v1, v2); err != nil {
+		return nil, err
+	}
 	return !r.valueLikeEqualTo(v1, v2), nil
+}
+
+// checkComparable reports an error where Go's == on the two values would panic
+// (arrays, maps or functions of the same type).
+func checkComparable(v1, v2 interface{}) error {
+	if v1 == nil || v2 == nil {
+		return nil
+	}
+	if t := reflect.TypeOf(v1); t == reflect.TypeOf(v2) && !t.Comparable() {
+		return fmt.Errorf("values of type %T are not comparable", v1)
+	}
+	return nil
 }
 
 func (r *Runner) valueLikeEqualTo(v1, v2 interface{}) bool {
@@ -801,10 +819,16 @@ func (r *Runner) valueLikeEqualTo(v1, v2 interface{}) bool {
 }
 
 func (r *Runner) resolveEqualsEqualsEqualsBinaryExpression(expr *BinaryExpression, v1, v2 interface{}) (interface{}, error) {
+	if err := checkComparable(v1, v2); err != nil {
+		return nil, err
+	}
 	return r.valueEqualTo(v1, v2), nil
 }
 
 func (r *Runner) resolveNotEqualsEqualsBinaryExpression(expr *BinaryExpression, v1, v2 interface{}) (interface{}, error) {
+	if err := checkComparable(v1, v2); err != nil {
+		return nil, err
+	}
 	return !r.valueEqualTo(v1, v2), nil
 }
 
